@@ -87,6 +87,10 @@ class IndexSum(Operator):
     def _simplify_indexed(self, multiindex):
         """Return a simplified Expr used in the constructor of Indexed(self, multiindex)."""
         A, i = self.ufl_operands
+        if i[0] in multiindex:
+            # Do not move a component index under a sum over the same
+            # index (it would be captured): keep Indexed(IndexSum)
+            return Operator._simplify_indexed(self, multiindex)
         return IndexSum(Indexed(A, multiindex), i)
 
     def evaluate(self, x, mapping, component, index_values):
